@@ -213,10 +213,10 @@ def run(F, res, tier):
     # postfix loop (call / field access / tuple index) runs on the unit before the infix loop
     # (on expr_bp with the helpers that belong to it inlined: the postfix loop may be a function of its own)
     from lib import inline as IL
-    only_here = lambda p: p.startswith("syntax::parser::") and p != eb.path and \
+    only_here = lambda p: p.startswith("syntax::parser::") and p != eb0.path and \
         any(callee(t_) == "syntax::parser::arg_list" for b_, t_ in F.fns[p].calls()) and \
-        {f_.path for f_, b_, t_ in F.callers_of(lambda c, p=p: c == p)} <= {eb.path}          # noqa: E731
-    ebv = IL.inlined(F, eb, want=only_here, depth=1)
+        {f_.path for f_, b_, t_ in F.callers_of(lambda c, p=p: c == p)} <= {eb0.path}          # noqa: E731
+    ebv = IL.inlined(F, eb0, want=only_here, depth=1)
     heads = sorted({h for _, h in ebv.back_edges()})
     post = [b for b, t in ebv.calls() if callee(t) == "syntax::parser::arg_list"]
     infx = [b for b, t in ebv.calls() if callee(t) == SK + "::infix_bp"]
